@@ -123,7 +123,7 @@ pub fn eval(c: &ValidCase) -> Outcome {
         for (a, b) in d_on.iter().zip(d_off.iter()) {
             if a != b {
                 key = a.0.split('.').last().unwrap_or("").trim_end_matches(char::is_numeric).to_string();
-                diff = format!("{}: on={} off={}", a.0, &a.1[..a.1.len().min(200)], &b.1[..b.1.len().min(200)]);
+                diff = format!("{}: on={} off={}", a.0, clip(&a.1, 200), clip(&b.1, 200));
                 break;
             }
         }
